@@ -54,6 +54,7 @@ def run(ctx):
                                                 "ops": L.case_ops(d["lines"], d["first"] + 1),
                                                 "implementation_says": d["impl"], "model_says": d["other"]})
     complaints = L.run_monitor(ctx, "c10", TRANSCRIPT)
+    L.monitor_accepts_model(ctx, "c10", "%s/%s.model.txt" % (ctx.out, TRANSCRIPT), complaints)
     L.handle_complaints(ctx, complaints, sig_of)
     ctl_cases = controller_loop(ctx, exe)
     cfg_rows = grace_as_configured(ctx)
